@@ -6,16 +6,17 @@ import RV.Driver.Util
 
     R seed n                      → n `new` indices of the shuffle, then the new seed
     S mode dt nInner <ring> <cand>→ k, then k × (p1 p2 gx gy gz gvx gvy gvz)
-    F mode ks tree hybrid nActive nVar seed <variant: 5 flags of RmVariant> dt t <res> nInner <ring> <parts> <given>
+    F mode ks tree hybrid nActive nVar seed <variant: 5 flags of RmVariant + purge-flagged-at-end flag> dt t <res> nInner <ring> <parts> <given>
                                   → seed' | calls | final state        (see `fullOut`)
 
     <ring>  = N_ghost_x N_ghost_y N_ghost_z, then 27 × 6 doubles (ghost boxes i,j,k = -1..1)
     <cand>  = n, then n × (ip x y z vx vy vz r)
     <parts> = n, then n × (id x y z vx vy vz m r lc)
     <given> = k, then k × (p1 p2 gbindex)          (mode given: pre-shuffle list; mode ordered: processing order)
-    <res>   = script salt | zero | merge | hs eps mcv | halt
+    <res>   = script salt | zero | merge midflag | hs eps mcv eqmflag | halt
 -/
 open RV RV.Driver RV.Collision
+open RV.Tree (T Cell)
 
 abbrev Tok := StateM (List String)
 
@@ -83,10 +84,10 @@ def tRes (t : Float) : Tok (Sim (Part Float) → Coll (GB Float) → Sim (Part F
   match (← tok) with
   | "script" => do let salt ← tNat; return scripted salt
   | "zero" => return fun s _ => (s, 0)
-  | "merge" => return merge Float.cbrt t
+  | "merge" => do let mid ← tNat; return merge (mid != 0) Float.cbrt t
   | "hs" => do
-    let eps ← tF; let mcv ← tF
-    return hardsphere floatTrig mcv t (fun _ => eps)
+    let eps ← tF; let mcv ← tF; let eqm ← tNat
+    return hardsphere (eqm != 0) floatTrig mcv t (fun _ => eps)
   | _ => return halt t
 
 def partStr (p : Part Float) : String :=
@@ -110,7 +111,7 @@ def opF : Tok String := do
   let mode ← tok
   let ks ← tNat; let tree ← tNat; let hybrid ← tNat
   let nActive ← tInt; let nVar ← tNat; let seed ← tNat
-  let vb ← tMany tNat 5
+  let vb ← tMany tNat 6
   let v : RmVariant := ⟨vb.getD 0 0 != 0, vb.getD 1 0 != 0, vb.getD 2 0 != 0, vb.getD 3 0 != 0, vb.getD 4 0 != 0⟩
   let dt ← tF; let t ← tF
   let res ← tRes t
@@ -129,6 +130,7 @@ def opF : Tok String := do
   let (sh, seed') := if mode == "ordered" then (found, UInt32.ofNat seed) else shuffle (UInt32.ofNat seed) found
   let s0 : Sim (Part Float) := ⟨parts, nActive, nVar, tree != 0, hybrid != 0, 0⟩
   let (sf, calls) := processLoop v flagPart res (ks != 0 || hybrid != 0) s0 sh
+  let sf := if vb.getD 5 0 != 0 then purgeFlagged sf else sf
   return fullOut seed' sf calls
 
 /-- all ordered pairs passing the LINE leaf test (what LINETREE reports when nothing is pruned):
@@ -150,6 +152,40 @@ def opS : Tok String := do
   | "lineall" => return searchOut (lineAll dt ring cand)
   | _ => return "bad-mode"
 
+/-- pre-order dump of one root cell as read back from the real code:
+    `N` (NULL) | `L x y z w pt` (leaf) | `D x y z w` followed by the eight octants -/
+partial def tTree : Tok (T Float) := do
+  match (← tok) with
+  | "L" => do
+    let x ← tF; let y ← tF; let z ← tF; let w ← tF; let pt ← tNat
+    return T.leaf ⟨x, y, z, w⟩ ⟨0.0, 0.0, 0.0, 0.0⟩ pt
+  | "D" => do
+    let x ← tF; let y ← tF; let z ← tF; let w ← tF
+    let ch ← tMany tTree 8
+    let v := ch.toArray
+    return T.node ⟨x, y, z, w⟩ ⟨0.0, 0.0, 0.0, 0.0⟩ 0 (fun o => v.getD o.val T.nil)
+  | _ => return T.nil
+
+/-- `T mode dt maxR0 maxR1 <ring> <parts> nroots <trees>` → updated max_radius0/1, then the pending
+    list of the TREE (`tree`) or LINETREE (`linetree`) search in the order of discovery -/
+def opT : Tok String := do
+  let mode ← tok
+  let dt ← tF
+  let m0 ← tF; let m1 ← tF
+  let ring ← tRing
+  let n ← tNat
+  let parts ← tMany tPart n
+  let nr ← tNat
+  let roots ← tMany tTree nr
+  let arr := parts.toArray
+  let P : Nat → Part Float := fun i => arr.getD i default
+  let (u0, u1) := updateMaxRadius m0 m1 (parts.map (·.r))
+  let k : Float := 0.86602540378443
+  let found := match mode with
+    | "tree" => treeSearch k u1 ring P n roots
+    | _ => lineTreeSearch Float.sqrt Float.abs k u1 dt ring P n roots
+  return s!"{hx u0} {hx u1} " ++ searchOut found
+
 def opR : Tok String := do
   let seed ← tNat; let n ← tNat
   let (news, s') := drawNews n n (UInt32.ofNat seed)
@@ -160,6 +196,7 @@ def step (toks : List String) : String :=
   | "R" :: r => (opR.run r).1
   | "S" :: r => (opS.run r).1
   | "F" :: r => (opF.run r).1
+  | "T" :: r => (opT.run r).1
   | _ => "bad-op"
 
 def main : IO Unit := runLines step
